@@ -23,6 +23,10 @@ def check(w):
         for arr in ("pull", "push", "local"):
             style = "filter" if (k + len(arr)) % 3 == 0 else "opt"
             lines.append(p_sync.mk_line(s, arr, JUDGE, rule_style=style))
+        # library client over the instrumented transport, both directions: the complete transcript (rule list
+        # on the wire, entries listed, requests) is validated action by action against Rsync.tla
+        for arr in ("lib", "libpush"):
+            lines.append(p_sync.mk_line(s, arr, JUDGE, rule_style="opt"))
     # rule syntax the implementation cannot honour must yield an error, never a crash
     base = scen[0]
     for arr in ("pull", "push", "local"):
@@ -40,8 +44,9 @@ def check(w):
         "samples": [{"rules": o["rules"], "arr": o["arr"], "flags": o["flags"], "final": [n["p"] for n in o["final"]], "result": o["result"]} for o in obs if len(o["rules"]) == 2][:3],
         "rule_lists": len(scen), "evaluations": len(obs), "distinct_nontrivial": nontriv,
         "rule": "every list of 0..%d plain-name rules (+/- a, b, d, e; given as --exclude/--include or -f) on a tree with those names as files and directories at depths 1..3, "
-                "in pull, push and local arrangement with the real code on both ends; non-trivial = at least one rule" % (2 if quick else 3),
+                "in pull, push, local and library (pull and push, transcript recorded) arrangement with the real code on both ends; non-trivial = at least one rule" % (2 if quick else 3),
         "action_coverage": cov, "negative_controls": nneg, "worker_crashes": counts.get("crashed", 0),
     }
+    v.coverage.update(p_sync.wire_coverage(counts))
     v.assumptions = ["plain-name rules only (no slashes, no wildcards) as the property states; wildcard rules are only required to produce an error"]
     return v.finish()
